@@ -104,18 +104,19 @@ def _replay(clause, m):
     return {'reproduced': False, 'tried': r['rule']}
 
 
-def make_ifj(method, full_output, include_origin):
-    cid = 'C02/integrateFuncJac/method=%s/full_output=%s/origin=%s' % (method, full_output, include_origin)
+def make_ifj(method, full_output, include_origin, int_x0=False):
+    cid = 'C02/integrateFuncJac/method=%s/full_output=%s/origin=%s%s' % (method, full_output, include_origin, '/integer-x0' if int_x0 else '')
 
     def run(vc):
         nS, nT = vc.int('nS', ge=1), vc.int('nT', ge=0)
-        x0 = vc.array('x0', (nS,))
+        # an initial state given as integers (population counts) is an integer-dtype array: nothing derived from it may hold the solution
+        x0 = vc.array('x0', (nS,), 'int' if int_x0 else 'real')
         t0 = vc.real('t0')
         ts = vc.array('t', (nT,))
         i, s = z3.Int('i'), z3.Int('s')
         vc.require('requested times strictly increasing and later than t0',
                    z3.ForAll([i], z3.Implies(z3.And(i >= 0, i < nT), z3.And(ts.get((i,)) > t0, z3.Implies(i > 0, ts.get((i,)) > ts.get((i - 1,)))))))
-        vc.assume(z3.ForAll([s], z3.Implies(z3.And(s >= 0, s < nS), Sol(t0, s) == x0.get((s,)))))
+        vc.assume(z3.ForAll([s], z3.Implies(z3.And(s >= 0, s < nS), Sol(t0, s) == z3.ToReal(x0.get((s,))) if int_x0 else Sol(t0, s) == x0.get((s,)))))
         world = {'nS': nS, 'solvers': [], 'integrations': [], 'check_forward': False}
         patch_module(vc, world)
         jac_calls = []
@@ -212,3 +213,6 @@ for _m in (None, 'lsoda', 'vode', 'ivode', 'dopri5', 'dop853'):
     for _fo in (False, True):
         for _io in (False, True):
             make_ifj(_m, _fo, _io)
+for _fo in (False, True):
+    for _io in (False, True):
+        make_ifj('vode', _fo, _io, int_x0=True)
